@@ -122,7 +122,13 @@ pub trait MapValidVec<T: IsNone>: Vec1View<T> {
         if len == 0 {
             return O::empty();
         } else if len == 1 {
-            return O::full(len, (1.).cast());
+            // a single null element has no rank
+            let rank = if unsafe { self.uget(0) }.is_none() {
+                OT::none()
+            } else {
+                (1.).cast()
+            };
+            return O::full(len, rank);
         }
         // argsort at first
         let mut idx_sorted: Vec<_> = (0..len).collect_trusted_to_vec();
